@@ -90,7 +90,7 @@ PROPS = {
         theorems=["BB.Props.C13.inv_step", "BB.Props.C13.lossless_ordered", "BB.Props.C13.get_fresh_is_head",
                   "BB.Props.C13.get_replays_in_order", "BB.Props.C13.rollback_marks_all", "BB.Props.C13.commit_drops_delivered",
                   "BB.Props.C13.closed_source_no_value", "BB.Props.C13.nothing_taken_after_close", "BB.Props.C13.after_close_errors",
-                  "BB.Props.C13.blocked_poll_is_noop", "BB.Props.C13.waiting_get_is_one_atomic_poll", "BB.Props.C13.waiting_get_sees_rollback"],
+                  "BB.Props.C13.blocked_poll_is_noop", "BB.Props.C13.failed_get_takes_nothing", "BB.Props.C13.waiting_get_is_one_atomic_poll", "BB.Props.C13.waiting_get_sees_rollback"],
         corr=[dict(family="channel", quick=300, thorough=20000, mismatch_is_violation=True,
                    nontrivial=has("rollback_after_partial_reread", "commit_partial_reread", "blocked_closed_src", "ctx_cancel", "get_after_srcclose",
                                   "blocked_get_woken_by_rollback", "blocked_get_woken_by_send", "blocked_get_woken_by_close"),
